@@ -59,6 +59,11 @@ class MemInterp(B.Interp):
                 yield s, ("field", (p.base, p.off), n["field"])
         else:
             for s, loc in self.lv(st, kid, f, depth):
+                if loc[0] == "var":
+                    # a local struct object: the same cell as through a pointer to it (&h)->f
+                    loc = (("L", loc[1], loc[2]), 0)
+                elif loc[0] == "mem":
+                    loc = (loc[1], loc[2])
                 yield s, ("field", loc, n["field"])
 
     def check_live(self, s, base, f, n):
@@ -114,7 +119,28 @@ class MemInterp(B.Interp):
             return
         return super().store_byte(s, base, off, bits_, f, n)
 
+    def ev_unary(self, st, n, ti, f, depth):
+        if n.get("op") == "&":
+            # the address of a member: a pointer that designates that member cell
+            for s, loc in self.lv(st, n["kids"][0], f, depth):
+                if loc[0] == "field":
+                    yield s, B.Ptr(("F", loc[1], loc[2]), 0)
+                elif loc[0] == "var":
+                    yield s, B.Ptr(("L", loc[1], loc[2]), 0)
+                else:
+                    yield s, B.Ptr(loc[1], loc[2])
+            return
+        yield from super().ev_unary(st, n, ti, f, depth)
+
+    @staticmethod
+    def _cell(loc):
+        """A dereferenced pointer-to-member is the member."""
+        if loc[0] == "mem" and isinstance(loc[1], tuple) and loc[1] and loc[1][0] == "F" and loc[2] == 0:
+            return ("field", loc[1][1], loc[1][2])
+        return loc
+
     def load(self, s, loc, ti, f, n):
+        loc = self._cell(loc)
         if loc[0] == "field":
             v = s.ext["heap"].fields.get((loc[1], loc[2]))
             if v is None:
@@ -135,6 +161,7 @@ class MemInterp(B.Interp):
         return super().load(s, loc, ti, f, n)
 
     def store(self, s, loc, v, ti, f, n):
+        loc = self._cell(loc)
         if loc[0] == "field":
             if isinstance(v, B.BV) and ti is not None and ti[0] == "int":
                 v = self.convert(v, ti)
